@@ -14,13 +14,13 @@ import (
 )
 
 const (
-	PNow   = iota // answer inside the callback
-	PHold         // park inside the callback until released, then answer
-	PAfter        // return from the callback, answer later from another goroutine
-	PAsync        // like PAfter but parked until released
-	PTwice        // answer, then answer again with different content
-	PTwiceLate    // answer; a second answer arrives later from another goroutine
-	PNever        // never answer (only with a flush that cancels)
+	PNow       = iota // answer inside the callback
+	PHold             // park inside the callback until released, then answer
+	PAfter            // return from the callback, answer later from another goroutine
+	PAsync            // like PAfter but parked until released
+	PTwice            // answer, then answer again with different content
+	PTwiceLate        // answer; a second answer arrives later from another goroutine
+	PNever            // never answer (only with a flush that cancels)
 )
 
 type Plan struct {
@@ -30,43 +30,43 @@ type Plan struct {
 	NWqid int   // walk: qids to return (-1: all names)
 	NData int   // read: bytes to return (-1: as many as asked)
 	// FlushOp behaviour when this request is the *target* of a flush seen by the implementation
-	OnFlush int // 0 ignore, 1 req.Flush(), 2 answer the target now
-	SecondErr bool // the second (duplicate) answer is an Rerror
-	StatNameLen int // >0: Rstat name padded to this length
-	ErrLen      int // >0: error text padded to this length
+	OnFlush     int  // 0 ignore, 1 req.Flush(), 2 answer the target now
+	SecondErr   bool // the second (duplicate) answer is an Rerror
+	StatNameLen int  // >0: Rstat name padded to this length
+	ErrLen      int  // >0: error text padded to this length
 }
 
 type Inv struct {
-	Seq      int
-	Step     int
-	Op       string
-	Conn     int
-	Tag      uint16
-	TcType   uint8
-	Fid      uint32
-	Newfid   uint32
-	Afid     uint32
-	FidP     *go9p.SrvFid
-	NewfidP  *go9p.SrvFid
-	AfidP    *go9p.SrvFid
-	User     int
-	Args     string
-	Key      string
-	Req      *go9p.SrvReq
-	Plan     *Plan
-	Held     bool
-	Released bool
-	AnsSteps []int
-	Expect   *Msg
-	Expect2  *Msg
-	data     []byte
-	dataHash uint64
-	Uniq     uint64
-	Flushed  bool // implementation called req.Flush() for it
+	Seq             int
+	Step            int
+	Op              string
+	Conn            int
+	Tag             uint16
+	TcType          uint8
+	Fid             uint32
+	Newfid          uint32
+	Afid            uint32
+	FidP            *go9p.SrvFid
+	NewfidP         *go9p.SrvFid
+	AfidP           *go9p.SrvFid
+	User            int
+	Args            string
+	Key             string
+	Req             *go9p.SrvReq
+	Plan            *Plan
+	Held            bool
+	Released        bool
+	AnsSteps        []int
+	Expect          *Msg
+	Expect2         *Msg
+	data            []byte
+	dataHash        uint64
+	Uniq            uint64
+	Flushed         bool // implementation called req.Flush() for it
 	answeredByFlush bool
-	FidType  uint8 // type of the fid when the implementation was entered
-	hb       uint64
-	autoAt   int // >0: a parked call wakes up by itself once the step counter reaches this (release in the middle of activity, not only at quiescence)
+	FidType         uint8 // type of the fid when the implementation was entered
+	hb              uint64
+	autoAt          int // >0: a parked call wakes up by itself once the step counter reaches this (release in the middle of activity, not only at quiescence)
 }
 
 type sUser struct {
@@ -74,10 +74,10 @@ type sUser struct {
 	name string
 }
 
-func (u *sUser) Name() string                { return u.name }
-func (u *sUser) Id() int                     { return u.id }
-func (u *sUser) Groups() []go9p.Group        { return nil }
-func (u *sUser) IsMember(g go9p.Group) bool  { return false }
+func (u *sUser) Name() string               { return u.name }
+func (u *sUser) Id() int                    { return u.id }
+func (u *sUser) Groups() []go9p.Group       { return nil }
+func (u *sUser) IsMember(g go9p.Group) bool { return false }
 
 type sGroup struct{ id int }
 
@@ -133,7 +133,7 @@ type ScriptFS struct {
 	FlushHold    func(inv *Inv) bool // park this FlushOp.Flush call until released
 	Dotu         func(conn int) bool // negotiated dialect per connection, for expected replies
 	// flush hook: called when the implementation's Flush sees target
-	flushes []*Inv
+	flushes      []*Inv
 	pendingFlush []*go9p.SrvReq
 	authErrNext  bool // the authentication callback of the request in flight must refuse
 	AutoRelease  bool // parked calls may wake up by themselves after a drawn number of steps
@@ -586,16 +586,22 @@ func (f *ScriptFS) authWrite(afid *go9p.SrvFid, off uint64, data []byte) (int, e
 	return len(data), nil
 }
 
-func (f fsAuth) AuthInit(a *go9p.SrvFid, n string) (*go9p.Qid, error)        { return f.authInit(a, n) }
-func (f fsAuth) AuthDestroy(a *go9p.SrvFid)                                  { f.authInv("authdestroy", a, "") }
-func (f fsAuth) AuthCheck(fid, a *go9p.SrvFid, n string) error               { return f.authCheck(fid, a, n) }
-func (f fsAuth) AuthRead(a *go9p.SrvFid, o uint64, d []byte) (int, error)    { return f.authRead(a, o, d) }
-func (f fsAuth) AuthWrite(a *go9p.SrvFid, o uint64, d []byte) (int, error)   { return f.authWrite(a, o, d) }
-func (f fsAuthFlush) AuthInit(a *go9p.SrvFid, n string) (*go9p.Qid, error)   { return f.authInit(a, n) }
-func (f fsAuthFlush) AuthDestroy(a *go9p.SrvFid)                             { f.authInv("authdestroy", a, "") }
-func (f fsAuthFlush) AuthCheck(fid, a *go9p.SrvFid, n string) error          { return f.authCheck(fid, a, n) }
-func (f fsAuthFlush) AuthRead(a *go9p.SrvFid, o uint64, d []byte) (int, error) { return f.authRead(a, o, d) }
-func (f fsAuthFlush) AuthWrite(a *go9p.SrvFid, o uint64, d []byte) (int, error) { return f.authWrite(a, o, d) }
+func (f fsAuth) AuthInit(a *go9p.SrvFid, n string) (*go9p.Qid, error)     { return f.authInit(a, n) }
+func (f fsAuth) AuthDestroy(a *go9p.SrvFid)                               { f.authInv("authdestroy", a, "") }
+func (f fsAuth) AuthCheck(fid, a *go9p.SrvFid, n string) error            { return f.authCheck(fid, a, n) }
+func (f fsAuth) AuthRead(a *go9p.SrvFid, o uint64, d []byte) (int, error) { return f.authRead(a, o, d) }
+func (f fsAuth) AuthWrite(a *go9p.SrvFid, o uint64, d []byte) (int, error) {
+	return f.authWrite(a, o, d)
+}
+func (f fsAuthFlush) AuthInit(a *go9p.SrvFid, n string) (*go9p.Qid, error) { return f.authInit(a, n) }
+func (f fsAuthFlush) AuthDestroy(a *go9p.SrvFid)                           { f.authInv("authdestroy", a, "") }
+func (f fsAuthFlush) AuthCheck(fid, a *go9p.SrvFid, n string) error        { return f.authCheck(fid, a, n) }
+func (f fsAuthFlush) AuthRead(a *go9p.SrvFid, o uint64, d []byte) (int, error) {
+	return f.authRead(a, o, d)
+}
+func (f fsAuthFlush) AuthWrite(a *go9p.SrvFid, o uint64, d []byte) (int, error) {
+	return f.authWrite(a, o, d)
+}
 
 // Ops returns the value to hand to Srv.Start for the requested optional interfaces.
 // the same four shapes with the optional request hooks
